@@ -23,7 +23,7 @@ ASYNC = [s for s in SIBLINGS if s[2]]
 
 def cancel_calls(an: Analysis, module: str):
     out = []
-    for fi in an.prog.functions.values():
+    for fi in an.prog.scan_functions():
         if fi.module.name != module:
             continue
         for n in fi.own_nodes():
@@ -97,7 +97,7 @@ def check(an: Analysis) -> None:
     # ------------------------------------------------------------------ C13.4 nothing cancels
     ob = an.ob("C13.4", "K3", "no .cancel() call anywhere in helpers/caching.py: expiry and eviction only drop the entry (del / popitem), the invocation finishes and delivers to everyone already waiting")
     mod = prog.module("helpers.caching")
-    ob.inst(None, None, f"{len([f for f in prog.functions.values() if f.module is mod])} functions of helpers.caching scanned")
+    ob.inst(None, None, f"{len([f for f in prog.scan_functions() if f.module is mod])} functions of helpers.caching scanned")
     for fi, n in cancel_calls(an, mod.name):
         ob.inst(fi, n)
         ob.fail(fi, n, "the cache cancels something: an in-flight invocation must never be cancelled by expiry, eviction or a leaving waiter")
